@@ -19,17 +19,10 @@ from sa.selftest import Edit, Variant
 from sa.sym import (ClassRef, Closure, Cond, Ext, Interp, PyCallable, Rec, SymStr, Undecided, closure_of, explore, method_of,
                     simplify_num, to_rf)
 
-EXPLANATION = (
-    "Polynomial/rational normal forms of the source expressions of Affine2D (__matmul__, map_point, map_vector, determinant, inverse, "
-    "translate/scale/rotate/skewx/skewy/skew/matrix, compose_ltr, decompose_translation, decompose_scale) are compared with the matrices of "
-    "SVG 1.1 section 7.4-7.6, with cos/sin/tan as opaque atoms (cos^2+sin^2=1, parity); parse_svg_transform is interpreted over symbolic "
-    "match objects for every operator x admissible argument count and every ordered pair of operators and compared with the left-to-right "
-    "matrix product; its regular expressions are compared with the transform grammar; tostring templates are shown to be in the parser "
-    "language and to re-parse to the same six numbers; rect_to_rect is specialised over 10 alignments x 3 meet/slice forms and compared with "
-    "the specification's viewport transform."
-)
-ASSUMPTIONS = ["floating-point error of the products and is_degenerate's epsilon policy are not analysed",
-               "trigonometric functions are opaque atoms obeying parity and cos^2+sin^2=1"]
+from sa.texts import T as _T
+
+EXPLANATION = _T["C11"]["explanation"] + " Not decided: " + _T["C11"]["not_decided"] + "."
+ASSUMPTIONS = _T["C11"]["assumptions"]
 P = "C11"
 S = RF.sym
 
